@@ -117,7 +117,7 @@ def obligations(r, tier, seed):
                 x = k.reals("x", 2 if PT == "R2" else 3)
                 res = a + k.np.array(list(x))
                 k.eq([res[i] for i in range(len(x))], lie.act(k.np, T, a, x), "action/bare-array")
-            obs.append(Ob("C09/%s/point-action-bare-array" % T, action_arr, tier="internal", funcs=[cls + ".__add__"]))
+            obs.append(Ob("C09/%s/point-action-bare-array" % T, action_arr, funcs=[cls + ".__add__"]))
 
         def boxplus(k, T=T):
             a = k.pose(T, "a")
